@@ -7,7 +7,7 @@
      sim pass  : the code-faithful memory simulation (ThriftDomSim) must reproduce every observation EXACTLY;
                  it decides whether a deviation from the spec is exactly what a recorded defect produces. *)
 From Coq Require Import ZArith List Bool.
-From DG Require Import CaseFormat ProtoWireRef ThriftWire ThriftGeneric ThriftEdit ThriftDom ThriftDomSim Check01.
+From DG Require Import CaseFormat ProtoWireRef ThriftWire ThriftGeneric ThriftEdit ThriftDom ThriftDomErr ThriftDomSim Check01.
 Import ListNotations.
 Local Open Scope Z_scope.
 
@@ -79,7 +79,8 @@ Inductive cop :=
 | CSet (p : list pstep) (k : pstep) (t : Z) (vb : list Z) (st ex cap : Z)
 | CClear (p : list pstep) (k : pstep) (st : Z)
 | CPool (same : Z)
-| CLoadAt (p : list pstep) (rec : bool) (st : Z).
+| CLoadAt (p : list pstep) (rec : bool) (st : Z)
+| CSetErr (p : list pstep) (k : pstep) (code : Z) (st ex cap : Z).   (* store the ERROR node of a failed lookup as a child *)
 
 Definition parse_key (fs : list field) : option (pstep * list field) :=
   match parse_steps 1 fs with Some ([k], r) => Some (k, r) | _ => None end.
@@ -116,6 +117,15 @@ Fixpoint parse_ops (n : nat) (fs : list field) : option (list cop) :=
     | FZ 5 :: r0 =>
       match parse_path r0 with
       | Some (p, r1) => match parse_key r1 with Some (k, FZ st :: r) => cont (CClear p k st) r | _ => None end
+      | None => None
+      end
+    | FZ 9 :: r0 =>
+      match parse_path r0 with
+      | Some (p, r1) =>
+        match parse_key r1 with
+        | Some (k, FZ code :: FZ st :: FZ ex :: FZ cap :: r) => cont (CSetErr p k code st ex cap) r
+        | _ => None
+        end
       | None => None
       end
     | FZ 6 :: FZ same :: r => cont (CPool same) r
@@ -214,6 +224,7 @@ Definition spec_step (defaults ns : bool) (idx : Z) (s : sstate) (o : cop) : ver
           match dom_get target k with
           | None => (expect (code + 4) (st =? 1) [FZ 1], s)
           | Some c =>
+            if dom_type c =? T_ERROR then (expect (code + 14) (st =? 2) [FZ 2], s) else   (* the child is an ERROR node *)
             if negb ((st =? 0) && (ty =? dom_type c)) then (VBad (code + 5) [FZ 0; FZ (dom_type c)], s) else
             match c with
             | DEmpty => keep
@@ -246,6 +257,22 @@ Definition spec_step (defaults ns : bool) (idx : Z) (s : sstate) (o : cop) : ver
           end
         | _, _ => (VSkip, s)
         end
+      | CSetErr p k0 ecode st ex cap =>
+        let k := pkey_of_step k0 in
+        match dom_at (map pkey_of_step p) d with
+        | None => (VSkip, s)
+        | Some target =>
+          if negb (index_domain target k) then (VSkip, s) else
+          if negb (kind_fits target k) then (expect (code + 16) (st =? 2) [FZ 2], s) else
+          match k, dom_get target k with
+          | KIndex _, None => (VSkip, s)
+          | _, had =>
+            let d' := dom_upd (map pkey_of_step p) (fun x => dom_set_err x k ecode) d in
+            let exm := match had with Some _ => 1 | None => 0 end in
+            if negb (st =? 0) then (VBad (code + 17) [FZ 0; FZ exm], s)
+            else (VOk, {| s_dom := Some d'; s_drift := s_drift s || negb (ex =? exm) |})
+          end
+        end
       | CClear p k0 st =>
         let k := pkey_of_step k0 in
         match dom_at (map pkey_of_step p) d with
@@ -255,8 +282,10 @@ Definition spec_step (defaults ns : bool) (idx : Z) (s : sstate) (o : cop) : ver
           if negb (kind_fits target k) then (expect (code + 10) (st =? 2) [FZ 2], s) else
           match dom_get target k with
           | None => (expect (code + 11) (st =? 1) [FZ 1], s)
-          | Some _ => (expect (code + 12) (st =? 0) [FZ 0],
-                       {| s_dom := Some (dom_step_at d (map pkey_of_step p, OClear k)); s_drift := s_drift s |})
+          | Some c =>
+            if dom_type c =? T_ERROR then (expect (code + 15) (st =? 2) [FZ 2], s) else
+            (expect (code + 12) (st =? 0) [FZ 0],
+             {| s_dom := Some (dom_step_at d (map pkey_of_step p, OClear k)); s_drift := s_drift s |})
           end
         end
       | CLoadAt p rec st =>
@@ -304,7 +333,8 @@ Fixpoint sim_nav (o : sopts) (self : pn) (p : list pkey) : res (option (list Z *
     match l with
     | LFound i =>
       match aget (pn_arr self) i with
-      | Some c => do r <- sim_nav o c p'; match r with Some (is, t) => ROk (Some (i :: is, t)) | None => ROk None end
+      | Some c => if pn_t c =? T_ERROR then ROk None else
+                  do r <- sim_nav o c p'; match r with Some (is, t) => ROk (Some (i :: is, t)) | None => ROk None end
       | None => RUB
       end
     | _ => ROk None
@@ -354,7 +384,8 @@ Definition sim_step (o : sopts) (root : pn) (c : cop) : res (cop * pn) :=
                     (fun l => match l with
                               | LFound i =>
                                 match aget (pn_arr t) i with
-                                | Some ch => let '(est, eb) := obs_marshal ch in ROk (CGet p k0 0 (pn_t ch) (pn_raw ch) est eb, root)
+                                | Some ch => if pn_t ch =? T_ERROR then bad 2 else
+                                             let '(est, eb) := obs_marshal ch in ROk (CGet p k0 0 (pn_t ch) (pn_raw ch) est eb, root)
                                 | None => RUB
                                 end
                               | LNil => bad 1
@@ -385,6 +416,27 @@ Definition sim_step (o : sopts) (root : pn) (c : cop) : res (cop * pn) :=
                 | None => bad 4
                 end)
       bad
+  | CSetErr p k0 ecode _ _ cap =>
+    let bad st := ROk (CSetErr p k0 ecode st 0 cap, root) in
+    nav_fail (sim_nav o root (map pkey_of_step p))
+      (fun r => match r with
+                | Some (is, tg) =>
+                  let k := pkey_of_step k0 in
+                  nav_fail (match k with
+                            | KField id => sim_set_field o tg id T_ERROR [] cap
+                            | KStr s => sim_set_map tg (sim_get_str o tg s) k T_ERROR [] cap
+                            | KInt n => sim_set_map tg (sim_get_int o tg n) k T_ERROR [] cap
+                            | KIndex i => if (0 <=? i) && (i <? pn_len tg) then ROk (SetOk (put_node tg i T_ERROR []) true) else ROk SetErr
+                            | _ => ROk SetErr
+                            end)
+                    (fun sr => match sr with
+                               | SetOk tg' e => ROk (CSetErr p k0 ecode 0 (Z.b2z e) cap, pn_upd is (fun _ => tg') root)
+                               | SetErr => bad 2
+                               end)
+                    bad
+                | None => bad 4
+                end)
+      bad
   | CClear p k0 _ =>
     let bad st := ROk (CClear p k0 st, root) in
     nav_fail (sim_nav o root (map pkey_of_step p))
@@ -393,7 +445,8 @@ Definition sim_step (o : sopts) (root : pn) (c : cop) : res (cop * pn) :=
                   nav_fail (sim_lookup o tg (pkey_of_step k0))
                     (fun l => match l with
                               | LFound i => match aget (pn_arr tg) i with
-                                            | Some _ => ROk (CClear p k0 0, pn_upd (is ++ [i]) clear_node root)
+                                            | Some ch => if pn_t ch =? T_ERROR then bad 2 else
+                                                         ROk (CClear p k0 0, pn_upd (is ++ [i]) clear_node root)
                                             | None => RUB
                                             end
                               | LNil => bad 1
@@ -429,6 +482,7 @@ Definition cop_eqb (a b : cop) : bool :=
   | CClear _ _ s1, CClear _ _ s2 => s1 =? s2
   | CPool _, CPool _ => true
   | CLoadAt _ _ s1, CLoadAt _ _ s2 => s1 =? s2
+  | CSetErr _ _ _ s1 e1 _, CSetErr _ _ _ s2 e2 _ => (s1 =? s2) && (e1 =? e2)
   | _, _ => false
   end.
 
